@@ -25,6 +25,10 @@ type Query struct {
 	Assume    []Fact                              // facts assumed at the start
 	Block     func(ssa.Instruction) bool          // path may not pass these (the "must pass" set)
 	BlockEdge func(from, to *ssa.BasicBlock) bool // path may not take these edges
+	// BlockFact: the path may not take an edge on which this fact becomes known. Unlike BlockEdge it sees the branch
+	// condition with phi nodes resolved by the path: for "if a && b" (cond = phi[false, b]) arriving from the block that
+	// evaluated b, the fact is about b.
+	BlockFact func(f Fact) bool
 	Target    func(ssa.Instruction) bool          // where the path must arrive
 	MaxStates int
 	// TrackConsts makes the search carry the values of integer/boolean SSA values that are constant along the
@@ -163,6 +167,26 @@ func (q Query) Find() (*Witness, error) {
 		for _, s := range it.blk.Succs {
 			if q.BlockEdge != nil && q.BlockEdge(it.blk, s) {
 				continue
+			}
+			if rf := resolvedEdgeFact(it.prev, it.blk, s); rf != nil {
+				if c, isC := rf.Cond.(*ssa.Const); isC && c.Value != nil && c.Value.Kind() == constant.Bool {
+					if constant.BoolVal(c.Value) != rf.True {
+						continue // "if a && b" with a false on this path: the branch is decided
+					}
+				} else if q.BlockFact != nil {
+					blocked := q.BlockFact(*rf)
+					if !blocked {
+						for _, x := range shortCircuitFacts(*rf, 0) {
+							if q.BlockFact(x) {
+								blocked = true
+								break
+							}
+						}
+					}
+					if blocked {
+						continue
+					}
+				}
 			}
 			nf := it.facts
 			if q.TrackConsts {
@@ -799,4 +823,22 @@ func Origins(v ssa.Value) []ssa.Value {
 	}
 	rec(v)
 	return res
+}
+
+// resolvedEdgeFact is EdgeFact with a phi condition of `from` replaced by the operand the path (arriving from prev)
+// selects.
+func resolvedEdgeFact(prev, from, to *ssa.BasicBlock) *Fact {
+	ef := EdgeFact(from, to)
+	if ef == nil {
+		return nil
+	}
+	f := ef.StripNot()
+	if phi, ok := f.Cond.(*ssa.Phi); ok && phi.Block() == from && prev != nil {
+		for j, p := range from.Preds {
+			if p == prev {
+				return &Fact{phi.Edges[j], f.True}
+			}
+		}
+	}
+	return &f
 }
